@@ -258,7 +258,53 @@ BIN_FINDINGS = {
     "e_size1_axis": ("bin/sum_product.py -e raises TypeError (new_full fill_value must be Number, not Tensor) for a factor with a size-1 domain axis", "c03_bin_e_size1_axis"),
 }
 
+def forced_recursive_spec(rng, kind):
+    """recursive shapes whose Jacobian block Jx is a genuinely asymmetric matrix, so that solving the
+    transposed system matters: (0) matrix recursion X(n) -> a(n,m) X(m) | b(n); (1) mutual recursion
+    X -> Y a | b, Y -> X X c | d; (2) non-linear matrix recursion X(n) -> a(n,m) X(m) X(m) | b(n);
+    the start symbol contracts X with a vector c (or has arity 1 itself)"""
+    W = [Fraction(1, 4), Fraction(1, 2), Fraction(1), Fraction(1), Fraction(2)]
+    rw = lambda shape: gen.nested(shape, lambda: rng.choice(W))
+    if kind == 1:
+        elabels = [dict(term=False, type=[]), dict(term=False, type=[]), dict(term=False, type=[])] + [dict(term=True, type=[]) for _ in range(4)]
+        rules = [dict(lhs=0, nodes=[], edges=[(1, [])], ext=[]),
+                 dict(lhs=1, nodes=[], edges=[(2, []), (3, [])], ext=[]), dict(lhs=1, nodes=[], edges=[(4, [])], ext=[]),
+                 dict(lhs=2, nodes=[], edges=[(1, []), (1, []), (5, [])], ext=[]), dict(lhs=2, nodes=[], edges=[(6, [])], ext=[])]
+        weights = {3: rng.choice(W), 4: rng.choice(W), 5: rng.choice(W), 6: rng.choice(W)}
+        return dict(nlabels=[2], elabels=elabels, start=0, rules=rules, weights=weights, features=["forced_mutual_recursion"], recursive=True)
+    arity1_start = rng.random() < 0.3
+    elabels = [dict(term=False, type=[0] if arity1_start else []), dict(term=False, type=[0]),
+               dict(term=True, type=[0, 0]), dict(term=True, type=[0]), dict(term=True, type=[0])]
+    xs = [(1, [1])] * (2 if kind == 2 else 1)
+    rules = [dict(lhs=0, nodes=[0], edges=[(1, [0]), (4, [0])], ext=[0] if arity1_start else []),
+             dict(lhs=1, nodes=[0, 0], edges=[(2, [0, 1])] + xs, ext=[0]),
+             dict(lhs=1, nodes=[0], edges=[(3, [0])], ext=[0])]
+    weights = {2: gen.nested([2, 2], lambda: rng.choice(W[:4])), 3: rw([2]), 4: rw([2])}
+    return dict(nlabels=[2], elabels=elabels, start=0, rules=rules, weights=weights,
+                features=["forced_matrix_recursion" if kind == 0 else "forced_nonlinear_matrix_recursion"], recursive=True)
+
+NT0 = dict(term=False, type=[])
+def forced_finding_specs():
+    """minimal inputs of the three known defect classes (kept in every run so that a repair is noticed)"""
+    F = Fraction
+    dead = dict(nlabels=[2], elabels=[NT0, NT0, dict(term=True, type=[0])], start=0,
+                rules=[dict(lhs=0, nodes=[0], edges=[(2, [0])], ext=[]), dict(lhs=0, nodes=[0], edges=[(2, [0]), (1, [])], ext=[])],
+                weights={2: [F(1, 4), F(1, 4)]}, features=["forced_log_dead_rule"], recursive=False)
+    unreach = dict(nlabels=[2], elabels=[NT0, NT0, dict(term=True, type=[0]), dict(term=True, type=[0])], start=0,
+                   rules=[dict(lhs=0, nodes=[0], edges=[(2, [0])], ext=[]), dict(lhs=1, nodes=[0], edges=[(3, [0])], ext=[])],
+                   weights={2: [F(1, 2), F(2)], 3: [F(1), F(3)]}, features=["forced_unreachable_factor"], recursive=False)
+    size1 = dict(nlabels=[1], elabels=[NT0, dict(term=True, type=[0])], start=0,
+                 rules=[dict(lhs=0, nodes=[0], edges=[(1, [0])], ext=[])],
+                 weights={1: [F(1, 4)]}, features=["forced_size1_axis"], recursive=False)
+    return dead, unreach, size1
+
 def gen_spec(rng, i, recursive):
+    if recursive and i % 3 == 1:
+        kind = (i // 3) % 3
+        spec = forced_recursive_spec(rng, kind)
+        scale = Fraction(1, 8) if kind == 2 else rng.choice([Fraction(1, 4), Fraction(1, 8)])
+        if shared_factor(spec): spec["features"] = sorted(set(spec["features"]) | {"shared_factor"})
+        return spec, scale, False
     if recursive:
         linear = rng.choice([True, False, None])
         spec = gen.random_spec(rng, recursive=True, linear=linear, allow_inf=False, max_nt=3, max_rules=2, max_nodes=3, max_edges=3, max_dom=2)
@@ -277,15 +323,20 @@ def gen_spec(rng, i, recursive):
 
 def run(tier, seed):
     rng = random.Random(seed); t_start = time.time()
-    n_nonrec, n_rec, n_bin = (70, 40, 4) if tier == "quick" else (900, 450, 40)
+    n_nonrec, n_rec, n_bin = (70, 40, 3) if tier == "quick" else (900, 450, 40)
     if os.environ.get("VERIF_N"): n_nonrec = n_rec = int(os.environ["VERIF_N"])
     violations = []; vals = []; meta = []
     feats = {}; distinct = set()
     kinds = dict(nonrecursive=0, recursive=0, bin=0, nograd=0, valueerror=0, warned=0, skipped_large=0, log_dead_rule_cases=0)
     hist = dict(semiring={}, method={}, cot={})
-    pool = ThreadPoolExecutor(4); bin_jobs = []
+    pool = ThreadPoolExecutor(5); bin_jobs = []
     # the command-line tool on a few Real cases: subprocesses started now, collected at the end
     brng = random.Random(seed * 31 + 7); k = 0; tries = 0
+    dead_spec, unreach_spec, size1_spec = forced_finding_specs()
+    sr1 = SR("real", "float64", Fraction(1))
+    bin_jobs.append((unreach_spec, sr1, "fixed-point", [Fraction(1)], True, False, "G", None, pool.submit(run_bin, unreach_spec, "fixed-point", None, "G")))
+    bin_jobs.append((size1_spec, sr1, "newton", [Fraction(1)], True, False, "ge", 1, pool.submit(run_bin, size1_spec, "newton", None, "ge", factor=1)))
+    n_bin += 2
     while len(bin_jobs) < n_bin and tries < 400:
         tries += 1
         recursive = len(bin_jobs) % 2 == 1
@@ -312,9 +363,9 @@ def run(tier, seed):
         vals.append(wire_case(spec, sr, cot, grads)); meta.append((case, call, grads, dead))
         if any(x != 0 for g in grads.values() for x in g):
             distinct.add(json.dumps(case, sort_keys=True))
-    for i in range(n_nonrec + n_rec):
+    for i in range(-1, n_nonrec + n_rec):
         recursive = i >= n_nonrec
-        spec, scale, keep_zero = gen_spec(rng, i, recursive)
+        spec, scale, keep_zero = (dead_spec, Fraction(1), False) if i < 0 else gen_spec(rng, i, recursive)
         if sum(numel([spec["nlabels"][nl] for nl in spec["elabels"][el]["type"]]) for el in spec["weights"]) > (10 if recursive else 16):
             kinds["skipped_large"] += 1; continue
         for f in spec["features"]: feats[f] = feats.get(f, 0) + 1
